@@ -379,6 +379,9 @@ def discharge(F, s):
             ub = S.upper(sz)
             if ub <= (1 << 20):
                 return _auto(s, "size bounded by %s" % ub)
+            for n in list(S.nodes):
+                if n and re.match(r"^\(?len\(", n) and S.implies(sz, Term(n, 0), 64):
+                    return _auto(s, "size bounded by the length of an existing buffer (%s)" % n)
             return False
     except Exception as e:   # a matcher bug must never discharge anything
         s.how = "matcher error: %r" % e
